@@ -133,9 +133,6 @@ def conv_task(pino):
     return task
 
 
-def run(ctx):
-    mirs(ctx)
-    ctx.parallel([('conv:anchor', conv_task(False)), ('conv:pino', conv_task(True))], max_procs=2)
 
 
 # ------------------------------------------------------------------------------------------------
@@ -230,3 +227,5 @@ def run(ctx):
     from props import pino
     tasks += [t for t in pino.tasks() if t[0].endswith('_v2')]
     ctx.parallel(tasks, max_procs=8)
+    # which fee schedule applies (epoch choice) on real mint images, Anchor and Pinocchio, and their agreement (Engine K)
+    ctx.run_kani(['c16.rs'])
